@@ -14,14 +14,22 @@ import (
 // every type, the nested tables hold the same named types with other root
 // files, and which of them ended up in the root table used to depend on map
 // iteration order (so did the file and the source line quoted in error messages).
+//
+// A type taken over this way can know further types of its own (a type that
+// was registered on a registered type brings the unnamed types of its "or"
+// rules), so the walk is repeated until nothing new is found.
 func AddUnnamedTypes(rootSchema *ischema.ISchema) {
-	for _, name := range sortedTypeNames(rootSchema.TypesList()) {
-		typ := rootSchema.TypesList()[name]
-		for _, inner := range sortedTypeNames(typ.Schema.TypesList()) {
-			if _, ok := rootSchema.TypesList()[inner]; ok {
-				continue
+	for added := true; added; {
+		added = false
+		for _, name := range sortedTypeNames(rootSchema.TypesList()) {
+			typ := rootSchema.TypesList()[name]
+			for _, inner := range sortedTypeNames(typ.Schema.TypesList()) {
+				if _, ok := rootSchema.TypesList()[inner]; ok {
+					continue
+				}
+				rootSchema.AddType(inner, typ.Schema.TypesList()[inner])
+				added = true
 			}
-			rootSchema.AddType(inner, typ.Schema.TypesList()[inner])
 		}
 	}
 }
